@@ -134,7 +134,7 @@ class Ctx(object):
         if self.normalise:
             from . import normalize
             try:
-                normalize.normalize_module(name, tree, self.norm_stats)
+                normalize.normalize_module(name, tree, self.norm_stats, self.pkg)
             except AnalysisError:
                 raise
             except Exception as e:
